@@ -198,6 +198,11 @@ static int h_access(const char *p, int mode)
 #define getifaddrs h_getifaddrs
 #define freeifaddrs h_freeifaddrs
 #define access h_access
+/* qremote/conn_mx.c releases a TLS session together with its connection (drop_connection());
+ * this harness never negotiates TLS (tls_init is scripted), so the session pointer stays NULL */
+#include <openssl/ssl.h>
+SSL *ssl;
+void ssl_free(SSL *s) { (void)s; }
 #include "lib/control.c"
 #include "lib/match.c"
 #include "lib/dns_helpers.c"
